@@ -12,12 +12,12 @@ CONSTANTS
   MAXWC = 32767
   MaxRoots = 2
   MaxWRoots = 0
-  MaxOps = 6
+  MaxOps = 7
   MaxFaults = 0
   MaxTraceK = 0
   BUG_STALE_TC = FALSE
   BUG_NESTED_FLAGS = FALSE
-  OPS = {"clean", "collect", "drop", "new", "put", "register"}
+  OPS = {"clean", "collect", "drop", "new", "register", "set"}
   AUTOF = TRUE
   AUTO0 = TRUE
   SZ = 160
